@@ -146,6 +146,9 @@ func (p *Printer) Print(w io.Writer, node Node) error {
 	case *Stmt:
 		p.stmtList([]*Stmt{node}, nil)
 	case Command:
+		// The command starts the output; newlines within it, such as
+		// the one keeping "(\n(foo))" from becoming "((foo))", are not at the top.
+		p.firstLine = false
 		p.command(node, nil)
 	case *Word:
 		p.line = node.Pos().Line()
